@@ -1,0 +1,27 @@
+//! Verification hooks, compiled only with the cargo feature `verif-hooks` (off by default).
+//!
+//! Add-only re-exports of crate-private items so that external verification harnesses can
+//! drive them directly. Nothing here changes the behaviour of the library.
+
+use crate::json::json_py::DeserializedObj;
+use crate::json::JSON;
+
+pub use crate::curves::curve_py::verif_nodes_into_order as nodes_into_order;
+
+/// `curves::interpolation::utils::index_left` with the recursion counter at its initial value.
+pub fn index_left<T>(list_input: &[T], value: &T) -> usize
+where
+    for<'a> &'a T: PartialOrd + PartialEq,
+{
+    crate::curves::interpolation::utils::index_left(list_input, value, None)
+}
+
+/// Load a document through the tagged `from_json` entry point and write it out again.
+///
+/// `Err` carries the loader's message; the `Ok` value is the re-serialised tagged JSON.
+pub fn from_json_tagged(json: &str) -> Result<String, String> {
+    match DeserializedObj::from_json(json) {
+        Ok(obj) => obj.to_json().map_err(|e| e.to_string()),
+        Err(e) => Err(e.to_string()),
+    }
+}
